@@ -186,6 +186,25 @@ extern "C" void h_det(void)
   OBL("C24.det_bareis.post.equals_cofactor_expansion", d.nn && FVAL(d) == ref_det(a));
   REACHABLE("h_det");
 }
+extern "C" void h_berkowitz(void)
+{
+  field_init();
+  DenseMatrix A, P(NN + 1, 1); fmat a; any_matrix(A, a, NN, NN);
+  verif_may_throw = false;
+  RCPBasic d = det_berkowitz(A);
+  OBL("C24.det_berkowitz.post.equals_cofactor_expansion", d.nn && FVAL(d) == ref_det(a));
+  char_poly(A, P);
+  /* characteristic polynomial p(x) = x^n + c1 x^(n-1) + ... + cn: monic, c1 = -trace, cn = (-1)^n det, and p(A) = 0 (Cayley-Hamilton) */
+  fe_t tr = 0; for (unsigned i = 0; i < NN; i++) tr = F_ADD(tr, a[i * NN + i]);
+  OBL("C24.char_poly.post.monic_of_degree_n", P.row_ == NN + 1 && P.col_ == 1 && FVAL(P.m_.d[0]) == 1);
+  OBL("C24.char_poly.post.second_coefficient_is_minus_trace", FVAL(P.m_.d[1]) == F_SUB(0, tr));
+  OBL("C24.char_poly.post.constant_term_is_plus_minus_det", FVAL(P.m_.d[NN]) == ((NN % 2 == 0) ? ref_det(a) : F_SUB(0, ref_det(a))));
+  /* Horner evaluation at A */
+  fmat acc, tmp; SQ(i, j) acc[i * NN + j] = (i == j) ? FVAL(P.m_.d[0]) : 0;
+  for (unsigned k = 1; k <= NN; k++) { ref_mul(acc, a, tmp, NN, NN, NN); SQ(i, j) acc[i * NN + j] = (i == j) ? F_ADD(tmp[i * NN + j], FVAL(P.m_.d[k])) : tmp[i * NN + j]; }
+  SQ(i, j) OBL("C24.char_poly.post.cayley_hamilton_p_of_A_is_zero", acc[i * NN + j] == 0);
+  REACHABLE("h_berkowitz");
+}
 /* ------------------------------------------------------------------ factorisations */
 extern "C" void h_lu(void)
 {
